@@ -12,7 +12,9 @@ func (op *FsTxn) postCommit() {
 
 func (op *FsTxn) commitWait(wait bool) bool {
 	op.preCommit()
+	verifHook("precommit", op, 0)
 	ok := op.Atxn.Op.CommitWait(wait)
+	verifHook("committed", op, 0)
 	op.postCommit()
 	return ok
 }
@@ -36,7 +38,9 @@ func (op *FsTxn) CommitUnstable() bool {
 // that is only an option if we do log-by-pass writes.
 func (op *FsTxn) CommitFh() bool {
 	op.preCommit()
+	verifHook("precommit", op, 0)
 	ok := op.Fs.Txn.Flush()
+	verifHook("committed", op, 0)
 	op.postCommit()
 	return ok
 }
@@ -44,6 +48,7 @@ func (op *FsTxn) CommitFh() bool {
 // An aborted transaction may free an inode, which results in dirty
 // buffers that need to be written to log. So, call commit.
 func (op *FsTxn) Abort() bool {
+	verifHook("abort", op, 0)
 	op.releaseInodes()
 	op.Atxn.PostAbort()
 	return true
